@@ -20,6 +20,18 @@ CHECKS = {
         modelled="matchAuth, handshakeRequest/Response, createPacket, the handshake case of Process (transcribed by hand)."),
 }
 
+CHECKS["C01"] = dict(
+    text="The specification is a monitor automaton over the tunnel's observable events (Spec/TunnelOrder.v). Theorems, for every "
+         "configuration, every list of transport reads (any bytes, any fragmentation, read errors) and every behaviour of the "
+         "cookie check, host policy and dial: the monitor accepts every run of the transcription of Processor.Process "
+         "(simulation + induction); hence every connection attempt is preceded in order by the four success responses, the "
+         "accepted cookie and the policy approval of that very host; at most one attempt per tunnel; payload only after a "
+         "successful dial and channel success; out-of-order packets never get success; an error response is followed by the "
+         "end; nothing after the end. The same extracted monitor is run over traces of the real Processor.Process.",
+    design="7/C01", technique="Coq proof (monitor + simulation relation, induction over read lists) + extracted-model correspondence",
+    modelled="Processor.Process, readMessage/readHeader, parsers and builders (hand transcription); callbacks, dial outcome and "
+             "transport reads are environment answers; websocket/legacy transports and main() wiring are outside this check.")
+
 NOT_YET = {}
 
 
